@@ -172,3 +172,14 @@ package ftp
 //@ func (commandCwd).Execute
 //@   callpre (*Conn).writeMessage: code == 250 ==> message == concat("Directory changed to ", caller.conn.driver.gcwd)
 //@   modifies *
+//
+// ---- goroutines of the FTP service (property C01): the command-log pump and the passive-socket
+// acceptor run outside the connection's recover; they cannot panic ----
+//@ func (*ftpService).Handle$1
+//@   check safety
+//@   requires conn != nil && s != nil && ftpConn != nil
+//@   modifies *
+//@ func (*ftpPassiveSocket).GoListenAndServe$1
+//@   check safety
+//@   requires listener != nil && socket != nil
+//@   modifies *
